@@ -729,6 +729,10 @@ func ApplyDefect(c *Chooser, d Doc, kind, posClass int) []byte {
 	switch kind {
 	case DefCtrlInString:
 		if o := pickSite(c, d, posClass, siteStringBody, siteStringEnd); o >= 0 {
+			if c.Intn("badescape", 3) == 0 {
+				// a bad or truncated escape instead of a raw control character
+				return ins(o, []string{`\x`, `\a`, `\'`, `\u12`, `\u12G4`, `\uD`, `\ `, `\0`, `\u 123`, `\U0041`}[c.Intn("badescapek", 10)])
+			}
 			return ins(o, string([]byte{byte(c.Intn("ctrl", 0x20))}))
 		}
 	case DefUnterminatedString:
